@@ -66,7 +66,7 @@ def param_key(p):
     return r if r is not None else p["name"]
 
 
-def check_fields(ctx, rule, m, key, h, fields, ser_fields, de_fields, node, pub_required=False):
+def check_fields(ctx, rule, m, key, h, fields, ser_fields, de_fields, node, pub_required=False, skips=()):
     """fields of a variant/struct == parameters of h (names, Self-stripped types, serde keys)"""
     want = {p["name"]: p["ty_s"] for p in h.params}
     have = {f["name"]: A.type_str(f["ty"]) for f in fields}
@@ -77,6 +77,13 @@ def check_fields(ctx, rule, m, key, h, fields, ser_fields, de_fields, node, pub_
         wk = sorted((param_key(p), p["name"]) for p in h.params)
         if sk != wk:
             ctx.violation(rule, key + [h.fn, "ser-keys"], C.where(m, node), wk, sk, STATEMENT)
+    # one entry per argument for EVERY value: an entry serialised conditionally (serde's skip_serializing_if) is only legitimate
+    # when the user asked for it with an attribute on that very parameter (forwarded attributes are C17's subject)
+    for k in skips:
+        asked = any("skip_serializing" in A.compact(a.get("tokens", "")) for p in h.params if param_key(p) == k for a in p["attrs"])
+        if not asked:
+            ctx.violation(rule, key + [h.fn, "conditional-entry", k], C.where(m, node), f"entry `{k}` present for every value of the argument", "serialised conditionally (skip_field)", STATEMENT,
+                          "MsgField::emit / emit_pub")
     if de_fields is not None:
         wkeys = sorted(param_key(p) for p in h.params)
         if sorted(de_fields) != wkeys:
@@ -191,7 +198,7 @@ def check_enum(ctx, m, g, kind):
         ctx.inst("C01.d-fields", distinct=(m.key, kind, h.fn))
         ctx.tag("fields." + ("0" if not h.params else "n"))
         dfields = (de["fields_of_variant"].get(vn) or {}).get("FIELDS")
-        check_fields(ctx, "C01.d-fields", m, key, h, variants[vn]["fields"], sv["fields"], dfields, variants[vn])
+        check_fields(ctx, "C01.d-fields", m, key, h, variants[vn]["fields"], sv["fields"], dfields, variants[vn], skips=sv.get("skips", ()))
         # (f) constructor: named after the variant in snake case == the handler name for in-shape names
         ctor = None
         for f in info.impl["items"]:
@@ -239,7 +246,7 @@ def check_struct(ctx, m, g, kind):
     if sf is None:
         return
     ser_fields = sf["ser"]["struct_fields"]
-    check_fields(ctx, "C01.e-struct", m, key, h, ty["fields"], ser_fields, sf["de"]["FIELDS"], ty)
+    check_fields(ctx, "C01.e-struct", m, key, h, ty["fields"], ser_fields, sf["de"]["FIELDS"], ty, skips=sf["ser"].get("struct_skips", ()))
     for f in ty["fields"]:
         if f["vis"] != "pub":
             ctx.violation("C01.e-struct", key + [f["name"], "vis"], C.where(m, ty), "pub field", f["vis"], STATEMENT)
